@@ -1,5 +1,8 @@
-"""C09 Submission is idempotent under client retries — E1 family: the real code over minisql vs the Lean model BatchDB, oracle `oracles.c09`."""
-from ..batchdb.prop import E1Prop
+"""C09 Submission is idempotent under client retries — E1 family: the real code over minisql vs the Lean model BatchDB, oracle `oracles.c09`;
+a quarter of the cases drive the real aioclient against the real handlers with re-delivered requests (harness/batchdb/client.py)."""
+import json
+
+from ..batchdb.prop import E1Prop, RunResult
 
 
 class C09(E1Prop):
@@ -8,14 +11,91 @@ class C09(E1Prop):
     design_ref = 'DESIGN.md §4 C09 (Engine E1)'
     oracle_name = 'c09'
     adversarial_share = 0.3
+    client_share = 0.25
     nontrivial_tags = ['resent:insertJobs', 'resent:createUpdate', 'resent:commit', 'resent:insertGroups', 'resent:createBatch']
-    level_text = 'Lean: Props/C09.lean. Oracle after every op: a re-sent createBatch / createUpdate / insertGroups / insertJobs / commit that was accepted before changes no table and (create*) answers the same id; update job-id and group-id ranges are contiguous, disjoint and in update order; staged job counts equal the job rows of the update; batches.n_jobs = sum of committed updates.'
+    level_text = ('Lean: Props/C09.lean. Oracle after every op: a re-sent createBatch / createUpdate / insertGroups / insertJobs / commit that was accepted '
+                  'before changes no table and (create*) gets the same answer; update job-id and group-id ranges are contiguous, disjoint and in update '
+                  'order; staged job counts equal the job rows of the update; batches.n_jobs = sum of committed updates; createUpdate answers (update id, '
+                  'first job id, first group id) equal to the update row, on the first send and on every re-send (client_ids_agree). A quarter of the '
+                  'cases drive the REAL hailtop.batch_client.aioclient.Batch against the REAL front-end handlers with requests delivered twice: no '
+                  'duplicate batch / update / job, counts not doubled, same answers, client-computed job and group ids = server ids, dependencies and '
+                  'groups as declared.')
     level_note = ('Partial: the server is harness/minisql (semantics list in trusted_base), every transaction is one atomic step, histories are generated '
                   '(not exhaustive); the Lean model is tied to the code only as far as the compared answers and dumps show. '
                   'Known findings of the unchanged tree are listed in known_findings.json and printed as KNOWN-FINDING.')
+    extra_trusted = ['harness/batchdb/client.py: transport between the real hailtop.batch_client.aioclient and the real (undecorated) front-end '
+                     'handlers that delivers marked requests twice; auth decorators and HTTP framing are bypassed']
 
     def nontrivial(self, r):
-        return any(t in r.tags for t in self.nontrivial_tags)
+        return any(t in r.tags for t in self.nontrivial_tags) or any(t.startswith('redelivered:') for t in r.tags)
+
+    # 'client' cases: the REAL aioclient.Batch submits through the REAL handlers, marked requests are delivered twice
+    def cases(self, rng, n, tier):
+        from ..batchdb import client
+        for c in super().cases(rng, n, tier):
+            if rng.random() < self.client_share:
+                yield client.gen_client_case(rng)
+            else:
+                yield c
+
+    @staticmethod
+    def key(c):
+        return json.dumps([c.get('subs'), c.get('dup')]) if c.get('kind') == 'client' else json.dumps(c['ops'])
+
+    def run_case(self, c):
+        if c.get('kind') != 'client':
+            return super().run_case(c)
+        from ..batchdb import client
+        res = RunResult()
+        res.lines.append('ok')
+        f, tags = client.run_client_case(getattr(self, 'repo', None), c)
+        res.tags = ['kind:client'] + tags
+        if f is not None:
+            res.failure = (0, f[0], f[1])
+        return res
+
+    def oracle(self, c, out):
+        if c.get('kind') != 'client':
+            return super().oracle(c, out)
+        if out and out[0].startswith('IMPL-EXC'):
+            return out[0]
+        r = self._get(c)
+        return None if r.failure is None else f'[{r.failure[1]}] real client, requests re-delivered per dup={c["dup"]}: {r.failure[2]}'
+
+    def classify(self, c, out):
+        if c.get('kind') != 'client':
+            return super().classify(c, out)
+        r = self._get(c)
+        return (self.key(c) if self.nontrivial(r) else None, sorted(set(r.tags)))
+
+    def shrink(self, c, fails):
+        if c.get('kind') != 'client':
+            return super().shrink(c, fails)
+        cur = dict(c)
+        if cur['dup'] != [1] and fails({**cur, 'dup': [1]}):
+            cur['dup'] = [1]
+        changed = True
+        while changed:
+            changed = False
+            for i in range(len(cur['subs']) - 1, -1, -1):
+                sub = cur['subs'][i]
+                cands = []
+                if i == len(cur['subs']) - 1 and len(cur['subs']) > 1:
+                    cands.append(cur['subs'][:-1])
+                if sub['jobs'] and (len(sub['jobs']) > 1 or sub['groups']):
+                    cands.append(cur['subs'][:i] + [{**sub, 'jobs': sub['jobs'][:-1]}] + cur['subs'][i + 1:])
+                if sub['groups'] and (sub['groups'] > 1 or sub['jobs']):
+                    cands.append(cur['subs'][:i] + [{**sub, 'groups': sub['groups'] - 1}] + cur['subs'][i + 1:])
+                if any(p for _, p in sub['jobs']):
+                    cands.append(cur['subs'][:i] + [{**sub, 'jobs': [[g, []] for g, _ in sub['jobs']]}] + cur['subs'][i + 1:])
+                for subs in cands:
+                    if fails({**cur, 'subs': subs}):
+                        cur['subs'] = subs
+                        changed = True
+                        break
+                if changed:
+                    break
+        return cur
 
 
 PROP = C09()
